@@ -107,7 +107,7 @@ Definition bytes_ok (b : bytes) : Prop := Forall byte_ok b.
 
 (* ---- crypto/secp256r1 -------------------------------------------------------------------------- *)
 (* elliptic.P256().Params().N *)
-Definition p256_n : Z := 115792089210356248762697446949407573529996955224135760342422259061068512044369.
+Definition p256_n : Z := 0xffffffff00000000ffffffffffffffffbce6faada7179e84f3b9cac2fc632551.
 (* secp256r1HalfOrder = N / 2 *)
 Definition p256_half : Z := p256_n / 2.
 (* normalizedS: s.Cmp(secp256r1HalfOrder) != 1 *)
@@ -122,7 +122,7 @@ Definition secp_verify (ecdsa : bytes -> bytes -> Z -> Z -> bool) (msg pk sig : 
 
 (* ---- crypto/ed25519 ---------------------------------------------------------------------------- *)
 (* order of the ed25519 base point, l = 2^252 + 27742317777372353535851937790883648493 *)
-Definition ed_l : Z := 7237005577332262213973186563042994240857116359379907606001950938285454250989.
+Definition ed_l : Z := 0x1000000000000000000000000000000014def9dea2f79cd65812631a5cf5d3ed.
 (* the guard ZIP-215 / ed25519consensus applies to the second half of the signature (SetCanonicalBytes) *)
 Definition ed_s (sig : bytes) : Z := le_decode (skipn 32 sig).
 Definition ed_s_canonical (sig : bytes) : bool := ed_s sig <? ed_l.
@@ -138,7 +138,7 @@ Definition auth_verify (lib : bool) (a : auth) : bool :=
    Group elements are represented by their discrete logarithms.
    BLS (avalanchego bls.Verify = blst core verify, basic scheme): pk = x*g1, H(m) = h*g2, sig = s*g2;
    e(pk, H(m)) = e(g1, sig)  <=>  x*h = s (mod r).  Neither pk nor the address is part of the signed message. *)
-Definition bls_r : Z := 52435875175126190479447740508185965837690552500527637822603658699938581184513.
+Definition bls_r : Z := 0x73eda753299d7d483339d80809a1d80553bda402fffe5bfeffffffff00000001.
 Definition bls_exp_verify (x h s : Z) : bool := ((x * h) mod bls_r =? s mod bls_r)%Z.
 
 (* ECDSA (crypto/ecdsa.Verify): Q = d*G, z = hash; the verifier recomputes R = (z/s)G + (r/s)Q = k*G with
